@@ -5,10 +5,13 @@ import ast, glob, json, os, sys
 
 REPO = os.environ.get("FACTO_REPO", "/repo")
 covered = {}
+inlined = set()
 for f in glob.glob(os.path.join(os.path.dirname(__file__), "..", "evidence", "C*.json")):
     cov = json.load(open(f))["coverage"]
     for e in cov.get("functions_under_contract", []):
         covered.setdefault(e["qualname"], set()).add(e.get("tier", "P"))
+        for n in e.get("inlined_callees", []):
+            inlined.add(n)
     for b in cov.get("bounded", []) or []:
         q = b.get("function") if isinstance(b, dict) else None
         if q:
@@ -27,7 +30,7 @@ for path in sorted(glob.glob(REPO + "/dsl_compiler/src/**/*.py", recursive=True)
                 q = f"{rel}::{prefix}{n.name}"
                 rows.append((q, n.end_lineno - n.lineno + 1))
     walk(tree, "")
-unc = [(q, n) for q, n in rows if q not in covered]
+unc = [(q, n) for q, n in rows if q not in covered and q.split("::")[1] not in inlined]
 print(f"{len(rows)} functions, {len(rows) - len(unc)} under contract or box, {len(unc)} not")
 pat = sys.argv[1] if len(sys.argv) > 1 else ""
 for q, n in sorted(unc, key=lambda r: -r[1]):
